@@ -265,6 +265,11 @@ class Repo(object):
     for rel in PIPELINE:
       if os.path.splitext(os.path.basename(rel))[0] == name:
         return self.mod(rel)
+    # a module added next to the known ones (a new dialect library ...)
+    for d in sorted({os.path.dirname(rel) for rel in PIPELINE}):
+      rel = os.path.join(d, name + '.py')
+      if os.path.exists(os.path.join(self.root, rel)):
+        return self.mod(rel)
     raise AnalysisError('unknown module name: %s' % name)
 
   def pipeline(self, only=None):
